@@ -203,7 +203,7 @@ class HostModel:
                 raise InvalidHistory('bad poke section')
             if op['section'] == 'snippets':
                 self.poked.setdefault(cid, {})[op['key']] = op.get('value')
-        elif kind == 'soak_distinct':
+        elif kind in ('soak_distinct', 'fail_census'):
             if op['cfg'] not in self.cur:
                 raise InvalidHistory('unknown config')
         elif kind == 'resolve':
